@@ -2,6 +2,7 @@
 Theorems: lean/SgVerif/C07/Props.lean over lean/SgVerif/Sync/Model.lean (BarrierImpl transliteration).
 Tie: trace acceptance of real runs (props/_shared/sync/sync_interp.cpp) in normal mode and for every interleaving
 explored by simgrid-mc without reduction."""
+import json
 import os
 import sys
 
@@ -64,10 +65,40 @@ def nontrivial(it):
     return sum(1 for l in it["lines"] if l.startswith("r ") and " bar " in l) >= 2
 
 
-def keyfn(v):
-    if "waits returned true" in v or "more than one 'last'" in v:
-        return "barrier-last-flag-mc"
-    return None
+KEY_RED = "sdpor-odpor-miss-barrier-last-outcome"
+
+
+def run_reduction_witness(ctx):
+    """witness_last_mc.cpp under the reductions: what `none` finds (exit 1) every reduction must find."""
+    import subprocess
+    from vlib import core
+    w = ctx.build_harness("witness_last_mc.cpp", flags=("-w",))
+    if not w:
+        return
+    env = dict(os.environ, **ctx.sg_env())
+    mc = os.path.join(core.SGBUILD, "bin", "simgrid-mc")
+    res = {}
+    for r in (["none", "odpor"] if ctx.tier == "quick" else ["none", "dpor", "sdpor", "odpor"]):
+        try:
+            res[r] = subprocess.run([mc, "--cfg=model-check/reduction:" + r, "--cfg=model-check/search-critical:0",
+                                     "--log=root.thres:critical", w], capture_output=True, text=True, timeout=300, env=env,
+                                    cwd=ctx.work).returncode
+        except subprocess.TimeoutExpired:
+            res[r] = "timeout"
+        ctx.cov["evaluations"] += 1
+    ctx.cov["reduction_witness"] = res
+    if res.get("none") == "timeout":
+        return
+    if res.get("none") != 1:
+        # the unreduced exploration must see both arrival orders of round 2, hence the failing assertion
+        ctx.violation("the unreduced exploration does not find the execution in which P1 is the last of round 2 (exit %s)" % res.get("none"),
+                      {"program": "props/C07/witness_last_mc.cpp", "results": res}, key="barrier-last-flag-mc")
+        return
+    missed = [r for r, rc in res.items() if rc == 0]
+    if missed:
+        ctx.violation("reductions %s end with exit 0 on a program whose MC_assert on the value returned by Barrier::wait() fails "
+                      "in a reachable execution (found without reduction)" % missed,
+                      {"program": "props/C07/witness_last_mc.cpp", "results": res}, key=KEY_RED)
 
 
 def run(ctx):
@@ -76,4 +107,10 @@ def run(ctx):
                        "sleeps (arrival orders vary); classes: reuse over several rounds with more actors than n, n = all actors "
                        "in a chosen order, random (may end blocked: incomplete last group); MC: 2-3 actors, all interleavings. "
                        "non-trivial = accepted trace in which at least 2 waits returned (MC: complete trace)")
-    synclib.standard_run(ctx, gen_normal, gen_mc, nontrivial, quick=(100, 3), thorough=(1500, 12), keyfn=keyfn)
+    if ctx.replay and json.load(open(ctx.replay))["case"].get("program") == "props/C07/witness_last_mc.cpp":
+        ctx.ensure_simgrid(["simgrid", "simgrid-mc"])
+        run_reduction_witness(ctx)
+        return
+    synclib.standard_run(ctx, gen_normal, gen_mc, nontrivial, quick=(100, 3), thorough=(1500, 12))
+    if not ctx.replay:
+        run_reduction_witness(ctx)
